@@ -23,7 +23,8 @@ ASSUMPTIONS = ['normal simulator: prefix = events while the simulated clock <= T
                'chunk that starts at index >= k', 'fast simulator: k on a boundary of every trading timeframe',
                'scripted strategies decide from (index, own observations) only']
 MIN_OBS = {'frontier_row_accesses': 20000, 'pairs_compared': 200, 'pairs_nontrivial': 50, 'pairs_step': 60, 'pairs_fast': 40,
-           'prefix_events_compared': 100000, 'prefix_hook_events': 20000}
+           'prefix_events_compared': 100000, 'prefix_hook_events': 20000,
+           'sessions_with_liquidations': 5}
 
 
 def _tail(rng, base, k, kind, resting, step=None):
@@ -136,6 +137,15 @@ def run_job(job):
         cnt0 = {'sessions_with_data_only_symbol': 1}
     else:
         cnt0 = {}
+    if job['i'] % 10 in (2, 3):
+        # isolated margin at high leverage without protective stops: positions are force-closed by the liquidation check of a
+        # minute / chunk (an event the simulator itself produces from the range of the candles it has just consumed)
+        spec['config'] = {'starting_balance': 10000, 'fee': 0.0005, 'type': 'futures', 'futures_leverage': rng.choice([20, 50]),
+                          'futures_leverage_mode': 'isolated'}
+        for r in spec['routes']:
+            r['script'].update(sl=None, entry='market', p_enter=0.5, on_reduced=None)
+            if r['script'].get('sides') == 'short' and False:
+                pass
     allc = session.build_candles(spec)
     w = spec['warmup']
     n = len(next(iter(allc.values()))) - w
@@ -168,6 +178,22 @@ def run_job(job):
     for e in rng.sample(fills, min(2, len(fills))):
         cuts.setdefault(idx(e['t']) - 1, 'before_fill')
         cuts.setdefault(idx(e['t']), 'at_fill')
+    liqs = [e for e in ev if e['k'] == 'submit' and e.get('in_liq')]
+    if liqs:
+        cnt['sessions_with_liquidations'] = 1
+        # fast simulator: the cut goes to the START of the chunk whose range caused the forced close, found by position in the
+        # trace (the loop index of the last `chunk` event before it), not by the time stamp the simulator gave the order
+        last_chunk, chunk_of = None, {}
+        for x in ev:
+            if x['k'] == 'chunk':
+                last_chunk = x['index']
+            elif x['k'] == 'submit' and x.get('in_liq'):
+                chunk_of[x['seq']] = last_chunk
+        for e in rng.sample(liqs, min(2, len(liqs))):
+            if fast and chunk_of.get(e['seq']) is not None:
+                cuts[int(chunk_of[e['seq']])] = 'before_liquidation'
+            else:
+                cuts[idx(e['t']) - 1] = 'before_liquidation'
     big = max([gen.TF_MIN[r['timeframe']] for r in spec['routes']] + [gen.TF_MIN[d['timeframe']] for d in spec['data_routes']])
     cuts.setdefault(rng.randrange(1, n) // big * big + big // 2, 'mid_window')
     import math as _m
@@ -191,7 +217,7 @@ def run_job(job):
         if 1 <= k < n - 1 and k not in [c[0] for c in chosen]:
             chosen.append((k, name))
     rng.shuffle(chosen)
-    chosen = sorted(chosen, key=lambda c_: c_[1] != 'read_frontier')[:job.get('max_cuts', 5)]
+    chosen = sorted(chosen, key=lambda c_: c_[1] not in ('read_frontier', 'before_liquidation'))[:job.get('max_cuts', 5)]
     lattice = next(iter(spec['candles'].values())).get('lattice')
     for k, name in chosen:
         t_cut = t0 + k * 60000
